@@ -1005,9 +1005,10 @@ Section Final.
     consistent_sampling cards ks' (Some prev) = consistent_sampling cards ks' None.
   Proof.
     intros Hav' G E. pose proof (available_grown _ _ _ G Hav') as Hav.
-    rewrite consistent_sampling_spec in E by auto. cbn [fst prev_list] in E. inversion E as [E'].
-    rewrite (continue_absorbs cards ks []) by (intros i []).
-    now apply continue_eq_redraw.
+    assert (Ep : prev = selection cards ks).
+    { rewrite consistent_sampling_spec in E by auto. cbn [fst] in E. injection E as E'. rewrite <- E'.
+      apply filter_ext_in'. intros i _. destruct (chosen cards ks i); reflexivity. }
+    subst prev. now apply continue_eq_redraw.
   Qed.
 
   (* absorbed continuation == redraw, for one step of the state machine *)
@@ -1039,7 +1040,7 @@ Section Final.
   Proof.
     induction ops as [|op ops IH]; intros st Hok Hnd Hprev; [reflexivity|].
     inversion Hok as [|? ? Hop Hok']; subst.
-    cbn [run_rounds map]. fold (as_redraw op).
+    cbn [run_rounds map]. change (as_redraw op) with (mkop (o_sizes op) false).
     rewrite <- (round_step_mode cards st op Hop (Hprev op eq_refl)).
     destruct (round_step_redraw cards st op Hop (fun _ => Hprev op eq_refl)) as (R1 & R2 & R3 & R4).
     rewrite R1. f_equal. apply IH.
@@ -1088,3 +1089,34 @@ Section Final.
     - symmetry. apply memn_false. intro Hc. apply selection_In in Hc. congruence.
   Qed.
 End Final.
+
+Theorem C07_sample_nums_stmt (V : Type) (rnd : nat -> Z) (k : nat) (cards : list (card V)) :
+  let r := assign_sample_nums rnd k cards in
+  (forall i d, (i < length cards)%nat -> c_num (nth i (fst r) d) = rnd (k + i)%nat) /\
+  map c_votes (fst r) = map c_votes cards /\ map c_extra (fst r) = map c_extra cards /\
+  snd r = (k + length cards)%nat /\
+  (forall (W : Type) (cards' : list (card W)), length cards' = length cards ->
+     map c_num (fst (assign_sample_nums rnd k cards')) = map c_num (fst r)).
+Proof.
+  cbn zeta. destruct (sample_nums_spec rnd cards k) as (H1 & H2 & H3 & H4 & H5).
+  split; [exact H5|]. split; [exact H2|]. split; [exact H3|]. split; [exact H4|].
+  intros W cards' Hl. destruct (sample_nums_spec rnd cards' k) as (H1' & _). rewrite H1', H1. now rewrite Hl.
+Qed.
+
+Theorem C10_proved_sticky_stmt (risk : Q) (ps qs : list Xq) (b : bool) :
+  (* once true, true after any further rounds, whatever their p-values (even NaN or 1) *)
+  (proved_after risk ps b = true -> proved_after risk (ps ++ qs) b = true) /\
+  (* it becomes true in a round whose p-value is at most the risk limit *)
+  (forall p, xle p (Fin risk) = true -> proved_after risk (ps ++ p :: qs) b = true) /\
+  (* and it is never set for another reason *)
+  (proved_after risk ps b = true -> b = true \/ exists p, In p ps /\ xle p (Fin risk) = true).
+Proof.
+  split; [apply proved_sticky|]. split.
+  - intros p Hp. unfold proved_after. rewrite fold_left_app. cbn [fold_left].
+    unfold set_proved at 2. rewrite Hp. cbn [orb]. apply proved_after_true.
+  - revert b. induction ps as [|p ps IH]; intros b H; [now left|].
+    unfold proved_after in H. cbn [fold_left] in H. apply IH in H. destruct H as [H|(q & Hq & Hx)].
+    + unfold set_proved in H. apply orb_true_iff in H. destruct H as [H|H]; [right|now left].
+      exists p. split; [now left | exact H].
+    + right. exists q. split; [now right | exact Hx].
+Qed.
